@@ -5,7 +5,7 @@ Two kinds of cases:
       processes (byte-identity), compiled (gcc -std=c99 -pedantic-errors / g++ -std=c++11, syntax only), and searched for every foreign declaration
       (verbatim, original order).  Output rows: the foreign declarations and the copies of context-generic structs in the order they occur in the
       processed C header ([0 id] / [1 id context]) — the block-level Coq model (coq/model/BindgenHeader.v, id 118) predicts exactly that sequence.
- '18 | argv, one row of character codes per argument'   (command-line cases): the REAL cglue-bindgen binary is run with that argv in a scratch
+ '18 <stale> | argv, one row of character codes per argument' (stale = 1: the output paths already hold an older, longer header)   (command-line cases): the REAL cglue-bindgen binary is run with that argv in a scratch
       directory where `cbindgen` and `rustup` are stubs that record their arguments and print a canned header; output rows: what the Coq model
       of main.rs's split (id 18) prints: [config given] ; config ; [+nightly] ; [output given] ; output ; arguments handed to cbindgen."""
 import hashlib
@@ -134,7 +134,7 @@ def block_kind(kind, text):
 
 def model_line(l):
     if l.startswith("18 "):
-        return l
+        return "18 |" + l.split("|", 1)[1]     # what the output path held before is no business of the command-line model
     api = B.line_api(l)
     _, meta = H.render_c_meta(api)
     ctxs = contexts_of(api)
@@ -250,6 +250,11 @@ def one_cli(idx, line):
         env["STUB_LOG"] = os.path.join(d, "log")
         env["STUB_HEADER"] = os.path.join(d, "canned.h")
         open(os.path.join(d, "cb.toml"), "w").write("")
+        if line.split("|", 1)[0].split()[1:2] == ["1"]:
+            # regeneration in place: every output path named on the command line already holds an older header that is longer than the new one
+            for a, b in zip(argv, argv[1:]):
+                if a in ("-o", "--output") and b not in ("-o", "--output") and "/" not in b and b not in ("cb.toml", "cfg1.toml", "cfg2.toml", "canned.h", "log"):
+                    open(os.path.join(d, b), "w").write("/* an older generation of this header */\n" + CANNED + "\n/* stale tail */\n" * 400)
         snap = lambda: {f: open(os.path.join(d, f), "rb").read() for f in os.listdir(d) if os.path.isfile(os.path.join(d, f)) and f != "log"}
         before = snap()
         pre0 = argv[:argv.index("--")] if "--" in argv else argv
@@ -360,7 +365,8 @@ def cli_case(rng, malformed=False):
     if malformed:
         post.insert(rng.below(len(post) + 1), rng.choice(["-o", "--output"]))
     argv = pre + (["--"] if rng.chance(9, 10) else []) + post
-    return "18 | " + " ; ".join(B.srow(a) for a in argv)
+    # header field 2 = 1: the output paths already hold an older, LONGER header (regeneration in place)
+    return "18 %d | " % (1 if rng.chance(1, 2) else 0) + " ; ".join(B.srow(a) for a in argv)
 
 
 def gen_cases(rng, tier):
@@ -423,9 +429,9 @@ def shrink_line(line, pred):
             changed = False
             for i in range(len(argv)):
                 a = argv[:i] + argv[i + 1:]
-                l = "18 | " + " ; ".join(B.srow(x) for x in a)
+                l = line.split("|", 1)[0] + "| " + " ; ".join(B.srow(x) for x in a)
                 if pred(l):
                     argv, changed = a, True
                     break
-        return "18 | " + " ; ".join(B.srow(x) for x in argv)
+        return line.split("|", 1)[0] + "| " + " ; ".join(B.srow(x) for x in argv)
     return B.shrink_api_line(line, pred)
